@@ -42,6 +42,35 @@ SIZE_CALLS = ["new Array(N).length", "Array(N).length", "(() => { const a: any[]
 SIZES = ["0", "1", "255", "256", "65535", "65536", "2147483647", "2147483648", "4294967294", "4294967295", "4294967296", "1e10", "9007199254740991", "9007199254740992", "1e21", "-1", "-2147483649", "1.5", "NaN", "Infinity", "-Infinity"]
 
 
+# long structures built by a LOOP and then used once: every use has to be a loop (or a guarded recursion) too
+DEEP = {
+    "protoGetHit": "let o: any = {top: 1}; for (let i = 0; i < D; i++) o = Object.create(o) ;;; o.top",
+    "protoGetMiss": "let o: any = {top: 1}; for (let i = 0; i < D; i++) o = Object.create(o) ;;; String(o.missing)",
+    "protoIn": "let o: any = {top: 1}; for (let i = 0; i < D; i++) o = Object.create(o) ;;; ('top' in o) + ':' + ('nope' in o)",
+    "protoForIn": "let o: any = {top: 1}; for (let i = 0; i < D; i++) o = Object.create(o); let n = 0; for (const k in o) n++ ;;; n",
+    "protoSetAndAccessor": "let o: any = {get a() { return 5; }, set a(v) { (this as any).s = v; }, m() { return 7; }}; for (let i = 0; i < D; i++) o = Object.create(o); o.a = 3; o.fresh = 1 ;;; o.s + o.a + o.m() + o.fresh",
+    "protoInstanceof": "function F(this: any) {} let o: any = new (F as any)(); for (let i = 0; i < D; i++) o = Object.create(o) ;;; (o instanceof (F as any)) + ':' + Object.prototype.isPrototypeOf.call(F.prototype, o)",
+    "protoToString": "let o: any = {}; for (let i = 0; i < D; i++) o = Object.create(o) ;;; String(o) + o.hasOwnProperty('x') + JSON.stringify(o)",
+    "protoSetPrototypeOf": "let o: any = {}; const base = o; for (let i = 0; i < D; i++) o = Object.create(o); let r = 'ok'; try { Object.setPrototypeOf(base, o); } catch (e) { r = (e as any).name; } ;;; r + Object.getPrototypeOf(o).constructor.name",
+    "boundCall": "let f: any = function (this: any, a: number) { return a + 1; }; for (let i = 0; i < D; i++) f = f.bind(null) ;;; f(1)",
+    "boundNew": "let F: any = function (this: any) { this.v = 2; }; for (let i = 0; i < D; i++) F = F.bind(null) ;;; new F().v",
+    "boundMeta": "let f: any = function named(a: any, b: any) {}; for (let i = 0; i < D; i++) f = f.bind(null) ;;; f.name.length + f.length",
+    "boundViaNative": "let f: any = (x: number) => x + 1; for (let i = 0; i < D; i++) f = f.bind(null) ;;; [1, 2].map(f).join()",
+    "classChain": "class A { static s = 1; x() { return 1; } } let K: any = A; for (let i = 0; i < Math.min(D, 3000); i++) K = class extends K {} ;;; K.s + new K().x() + (new K() instanceof A ? 1 : 0)",
+    "thenChain": "let res: any; let p: any = new Promise(r => { res = r; }); for (let i = 0; i < D; i++) p = p.then((x: number) => x + 1); res(0) ;;; await p",
+    "thenChainRejected": "let rej: any; let p: any = new Promise((_, r) => { rej = r; }); for (let i = 0; i < D; i++) p = p.then((x: number) => x + 1); rej(new RangeError('deep')); let r; try { await p; r = 'no'; } catch (e) { r = (e as any).name; } ;;; r",
+    "nestedArrayJoin": "let a: any = [1]; for (let i = 0; i < D; i++) a = [a]; let r; try { r = String(a).length; } catch (e) { r = (e as any).name; } ;;; r",
+    "nestedArrayFlatJson": "let a: any = [1]; for (let i = 0; i < D; i++) a = [a]; let r; try { r = a.flat(Infinity).length + JSON.stringify(a).length; } catch (e) { r = (e as any).name; } ;;; r",
+    "linkedListEquality": "let a: any = null; for (let i = 0; i < D; i++) a = {next: a, v: i}; let n = 0; for (let c = a; c; c = c.next) n++ ;;; n + (a == a ? 1 : 0)",
+    "causeChain": "let e: any = new Error('e0'); for (let i = 0; i < D; i++) e = new Error('e', {cause: e}) ;;; String(e).length + (e.stack || '').length * 0",
+    "proxyChainGet": "let p: any = {x: 1}; for (let i = 0; i < D; i++) p = new Proxy(p, {}); let r; try { r = p.x; } catch (e) { r = (e as any).name; } ;;; r",
+    "proxyChainHasSetKeys": "let p: any = {x: 1}; for (let i = 0; i < D; i++) p = new Proxy(p, {}); let r; try { r = ('x' in p) + ':' + (p.y = 2) + ':' + Object.keys(p).length; } catch (e) { r = (e as any).name; } ;;; r",
+    "proxyChainApply": "let p: any = function () { return 3; }; for (let i = 0; i < D; i++) p = new Proxy(p, {}); let r; try { r = p() + new p().constructor.length * 0; } catch (e) { r = (e as any).name; } ;;; r",
+    "closureChain": "let f: any = () => 0; for (let i = 0; i < D; i++) { const g = f; f = () => g() + 1; } let r; try { r = f(); } catch (e) { r = (e as any).name; } ;;; r",
+    "generatorDelegation": "function* g(n: number): any { if (n > 0) { yield* g(n - 1); } else { yield 1; } } let r; try { r = [...g(Math.min(D, 5000))].length; } catch (e) { r = (e as any).name; } ;;; r",
+}
+
+
 LCG = "let seed = %d; function rnd(): number { seed = (seed * 1103515245 + 12345) %% 2147483648; return seed / 2147483648; }\n"
 COMPARATORS = ["() => rnd() - 0.5", "() => 1", "() => -1", "() => NaN", "(a: any, b: any) => (rnd() < 0.3 ? b - a : a - b)", "() => ({} as any)", "(a: any, b: any) => { if (rnd() < 0.02) throw new TypeError('cmp'); return a - b; }",
                "(a: any, b: any) => { if (rnd() < 0.1) xs.push(1); if (rnd() < 0.1) xs.pop(); return rnd() - 0.5; }", "(a: any, b: any) => { xs.length = 0; return 1; }", "() => undefined as any", "(a: any, b: any) => a < b ? 1 : 1"]
@@ -179,6 +208,11 @@ def run(ctx):
             for n in ((0, 3, 40) if ctx.tier != "quick" else (rng.choice([0, 3, 40]),)):
                 progs.append("const xs: any[] = []; for (let k = 0; k < %d; k++) xs.push(k);\nlet r; try { r = 'v' + (%s); } catch (e) { r = 'caught:' + (e && (e as any).name); } String(r).slice(0, 40)" % (n, it.replace("MUT", mut)))
                 meta.append(("mutating-callback", "%s / %s n=%d" % (it[:50], mut, n)))
+    for nm, src in DEEP.items():
+        for d in ((2000, 40000) if ctx.tier == "quick" else (2000, 40000, 300000)):
+            setup, expr = re.sub(r"\bD\b", str(d), src).split(" ;;; ")
+            progs.append("%s;\nlet out; try { out = 'v' + (%s); } catch (e) { out = 'caught:' + (e && (e as any).name); } String(out).slice(0, 60)" % (setup, expr))
+            meta.append(("deep-structure", "%s D=%d" % (nm, d)))
     for h in HOSTILE:
         for sz in ((SIZES if ctx.tier != "quick" else ["3", "4294967295", "9007199254740991", "-1", "NaN"]) if re.search(r"\bN\b", h) else ["0"]):
             # the thrown value may itself be hostile (a proxy whose get trap throws): looking at it is guarded too
@@ -191,7 +225,11 @@ def run(ctx):
         hist[kind] = hist.get(kind, 0) + 1
         case = {"kind": kind, "what": nm, "program": p[:500], "impl": o[:200]}
         if o.startswith("CRASH") or o == "NOT-RUN" or o.startswith("PANIC"):
-            ctx.prop_fail("abort: the script made the process abort (%s through %s)" % (kind, nm), case)
+            site = [f for f in ctx.findings if f.get("kind") == "site" and kind == "deep-structure" and nm.split(" ")[0] in f.get("families", [])]
+            if site and o.startswith("CRASH"):
+                ctx.known(site[0]["id"], site[0]["what"])
+            else:
+                ctx.prop_fail("abort: the script made the process abort (%s through %s)" % (kind, nm), case)
         elif o.startswith("TIMEOUT"):
             ctx.prop_fail("hang: %s through %s did not finish within 90 s" % (kind, nm), case)
         elif o.startswith("ERR"):
